@@ -600,7 +600,7 @@ def build(tier, seed):
         # life cycle: shutdown() closes a persistent backend and only that; leaving a `with` block never closes a persistent backend
         def shut_ens(o, r, n):
             if not isinstance(n.self, Rec):
-                return True
+                return n.self._persist is False and n.self._persistent_backend is None
             p0 = o.self.f["_persist"]
             be0 = n.self.f.get("__be0")
             closed = isinstance(be0, Rec) and (be0.f.get("closed", True) is True or "closed" not in be0.f)
@@ -614,12 +614,29 @@ def build(tier, seed):
             return r
         contracts.append(FnContract(wd, "PyNativeExec.shutdown", [
             Case(f"{bname}-closes-exactly-a-persistent-backend", {"self": T("build", keep_backend, gen=lambda rng: None)}, ensures=shut_ens,
-                 size_bounded=True)]))
+                 size_bounded=True, native_gen=fix_model, native_call=lambda mod, a: a["self"].shutdown())]))
         wb = make_world(BASE, bname)
+        wb.stub_realize = {bname: real_exec(bname)}
+
+        def native_exit(mod, a):
+            ex = a["self"]
+            persistent = bool(ex._persist)
+            try:
+                ex.__exit__(None, None, None)
+                if persistent:
+                    try:
+                        ex._c65_followup = ex.map(nat_p1, ["z1", "z2"])
+                    except Exception as exc:  # pylint: disable=broad-except
+                        ex._c65_followup = f"{type(exc).__name__}: {exc}"
+            finally:
+                try:
+                    ex.shutdown()
+                except Exception:  # pylint: disable=broad-except
+                    pass
         contracts.append(FnContract(wb, "RemoteExec.__exit__", [
             Case(f"{bname}-leaving-a-with-block-keeps-a-persistent-backend-open",
                  {"self": exec_t(wb, bname), "exception_type": T("const", None), "exception_value": T("const", None), "traceback": T("const", None)},
-                 ensures=lambda o, r, n: frame(o, n) if isinstance(n.self, Rec) else True, size_bounded=True)]))
+                 ensures=lambda o, r, n: frame(o, n), size_bounded=True, native_gen=fix_model, native_call=native_exit)]))
 
     # ---- StdLibBackend (the serial backend object) verified from its body ---------------------------------------------------------
     ws = World(SERIAL, classes={"StdLibBackend": {}}, extra_builtins={})
